@@ -77,14 +77,24 @@ def cases(seed, tier):
              'knobs': gen.rand_knobs(rng), 'pseed': rng.getrandbits(32)}
         if rng.random() < 0.25:
             conn = rng.randrange(1, 6)
-            kind = rng.choice(['refuse', 'truncate_stall', 'truncate_close', 'garbage', 'truncate_reset', 'close_before'])
+            kind = rng.choice(['refuse', 'truncate_stall', 'truncate_close', 'garbage', 'truncate_reset', 'close_before', 'late_reply'])
             f = {'conn': conn, 'kind': kind}
-            if kind != 'refuse':
+            if kind == 'late_reply':
+                # a slow peer: the intact reply arrives after the tool's timeout (1 s) has passed, on a connection the peer keeps open
+                f = {'conn': conn, 'kind': 'delay', 'msg': 'reply', 'us': rng.choice([1_100_000, 1_600_000, 2_500_000])}
+            elif kind != 'refuse':
                 f['msg'] = rng.choice(['kexinit', 'reply', 'reply', 'banner'])
                 f['off'] = rng.choice([0, 5, 30, 100])
                 f['n'] = 50
             c['faults'] = [f]
             c['timeout'] = 1
+        elif i % 8 == 5:
+            # a server that cannot sign with some advertised member of the RSA family (it disconnects when one is negotiated): the key
+            # is presented through another member, and everything said about it must still be right
+            r3 = gen.case_rng(seed, ID, i, 'unsignable')
+            fam_adv = [a for a in prof['key'] if a in RSA]
+            if len(fam_adv) >= 2:
+                prof['unsignable'] = r3.sample(fam_adv, r3.randrange(1, len(fam_adv)))
         elif i % 8 == 3:
             # the same server probed while a second one, with other keys, is probed by another worker of the same invocation
             r2 = gen.case_rng(seed, ID, i, 'beside')
